@@ -753,10 +753,12 @@ def thr_hand_cases():
             mk([[["sleep", 4]], [["sleep", 8]], [["sleep", 12]]], [0, 1, 2], label="thr: distinct deadlines")]
     hc = list(hand_cases())
     keep = ("design spike D.5", "sub-task results", "uncaught sub-task exception", "two tasks select on one fd", "recv + partial sends",
-            "exit", "cancel", "clock at 0", "equal deadlines: timers and sleepers", "falsy results", "operation that raises")
+            "exit", "cancel", "clock at 0", "falsy results", "operation that raises")
     base += [c for c in hc if c["label"] in keep]
     base.append(mk(sub_table([[["sleep", 8], RAISE], [["sleep", 8], NUM0, NUM0], [["again", 4, True], ["sleep", 8]]]), [0, 1, 2, 1],
                    [[8, False, True, None], [4, True, True, 2]], label="thr: raise, sub-task, timers"))
+    base.append(mk([[SLEEP4, SLEEP4, ["sleep", 8]], [["sleep", 8], ["sleepabs", T0 + 12]]], [0, 1, 0], [[4, True, True, 2], [4, True, True, 1], [8, False, True, None]],
+                   label="thr: equal deadlines, timers and sleepers"))
     base.append(mk([[SLEEP4, NUM0, ["sleep", 8]], [NUM0, ["sleep", 8], NUM0], [["sleep", 12]]], [0, 1, 2, 1], label="thr: lottery",
                    prios=[2, 2, 4, 2], draws=[8, 8, 8, 8, 1, 8, 8, 8, 0, 8, 8, 8, 8, 3]))
     for c in base:
@@ -855,7 +857,7 @@ class C06(Check):
     driver = "drv_c06"
     theorems = ["Pox.C06.single_place", "Pox.C06.caller_blocked", "Pox.C06.no_overlap", "Pox.C06.pop_leaves_queue", "Pox.C06.program_order",
                 "Pox.C06.step_once", "Pox.C06.not_early", "Pox.C06.wake_is_registered", "Pox.C06.wake_is_requested", "Pox.C06.wake_kept",
-                "Pox.C06.expired_returns", "Pox.C06.no_crash", "Pox.C06.isolation", "Pox.C06.isolation_gen", "Pox.C06.isolation_rf",
+                "Pox.C06.wake_is_requested_trace", "Pox.C06.ready_returns", "Pox.C06.expired_returns", "Pox.C06.no_crash", "Pox.C06.isolation", "Pox.C06.isolation_gen", "Pox.C06.isolation_rf",
                 "Pox.C06.finished_never_runs", "Pox.C06.again_return", "Pox.C06.again_return_gen", "Pox.C06.caller_resumed_next",
                 "Pox.C06.delivery", "Pox.C06.fair_partial", "Pox.C06.timer", "Pox.C06.timer_stopped", "Pox.C06.timer_not_early",
                 "Pox.C06.again_empty_defect", "Pox.C06.send_zero_defect"]
@@ -889,19 +891,23 @@ class C06(Check):
                  "model against the real Scheduler.run() under a virtual clock/select (inline hub: whole run; threaded hub under a forced "
                  "thread scheduler: per-task projections) + independent property oracle on the real code's trace in both hub modes")
     level_text = ("Theorems single_place/caller_blocked/pop_leaves_queue/program_order/step_once/not_early/wake_is_registered/"
-                  "finished_never_runs/timer/timer_stopped/timer_not_early hold for every program table, task set, priorities, sequence of "
+                  "finished_never_runs/timer/timer_stopped/timer_not_early/wake_is_requested_trace hold for every program table, task set, priorities, sequence of "
                   "lottery draws, timer set, readiness script and number of loop iterations (unbounded); no_crash additionally assumes a "
                   "well-formed program table (every Again names an existing program).  not_early covers Sleep, yield n, Select, Recv and Send "
                   "with a timeout (the event records the raw value the hub handed back, before a Recv/Send return function rewrites it) and "
-                  "timers; timer_not_early bounds the k-th firing of a timer by start + delay + k*interval.  isolation (incl. an uncaught "
+                  "timers; wake_is_requested_trace says that the wake time recorded in resume i+1 of a top-level task is exactly what its yield i "
+                  "asked for at the time of resume i (Send excepted: it re-registers itself); timer_not_early bounds the k-th firing of a "
+                  "timer by start + delay + k*interval.  isolation (incl. an uncaught "
                   "sub-task exception and a raising return function), again_return, caller_resumed_next, delivery, wake_is_requested, "
-                  "wake_kept and expired_returns are exact one- or two-cycle statements for every state; fair_partial is the exact "
+                  "wake_kept, expired_returns and ready_returns (one hub pass returns every expired entry and every entry one of whose "
+                  "descriptors is ready, unless another task waits on the same descriptor) are exact one- or two-step statements for every state; fair_partial is the exact "
                   "round-robin bound for program tables without sub-task calls and priorities >= 1.  no_overlap holds by construction of "
                   "the (sequential) model - it documents a modelling decision and is evidence only through the differential run.  The "
                   "model is hand-written (inline hub); each run re-checks it against the real scheduler on exhaustive small scopes plus "
                   "random programs - with priorities < 1 and a scripted Scheduler._random, and with every blocking operation constructed in "
                   "each calling convention its class accepts (fd sets as list/tuple/set/dict view/None, timeout and timeIsAbsolute positional "
-                  "or keyword) - comparing the full trace (task, step, virtual time, value/exception received, raw hub value, wake time), "
+                  "or keyword, int or float seconds, Timer positional/keyword/absolute/started later/with callback arguments, tasks as "
+                  "BaseTask subclass or Task(target=...), one operation object shared by several tasks) - comparing the full trace (task, step, virtual time, value/exception received, raw hub value, wake time), "
                   "timer firings, cycle count and final queues.  Threaded hub: the same task "
                   "programs run on Scheduler(threaded_selecthub=True) with the scheduler thread and the hub thread under the forced thread "
                   "scheduler (sequential, random and PCT schedules, virtual time); the property oracle judges every run, and for program "
@@ -913,12 +919,10 @@ class C06(Check):
                   "are about that code's model, but the interleavings of the two threads are sampled (a few schedules per program, switches "
                   "at synchronisation operations only), not proved; what is compared there is the per-task projection, not the global order.  "
                   "Out of scope: real file descriptors (EpollSelect is only compared with select.select on pipes, as plain differential "
-                  "testing), CallBlocking worker threads, locks and statement-level races (C07).  Limits of what is proved: (1) 'the wake "
-                  "time in a step event is the time the preceding yield asked for' is a chain of one-step theorems (wake_is_requested at "
-                  "the yield, wake_kept while the task waits, delivery at the resume), not a single trace-level theorem; a Send that is "
-                  "re-registered after a partial write restarts its timeout, as the code does; for timers the link is part of the "
-                  "timer_not_early invariant.  (2) expired_returns is about timeouts; the analogue for ready descriptors (a task whose "
-                  "descriptor is ready is returned by that hub pass) is not proved, only checked by the oracle (lost-wakeup rules).  "
+                  "testing), CallBlocking worker threads, locks and statement-level races (C07).  Limits of what is proved: (1) wake_is_requested_trace excludes Send (re-registered after a partial write, "
+                  "which restarts its timeout, as the code does) and sub-tasks (their resumes are those of the AgainTask wrapper).  "
+                  "(2) ready_returns needs the descriptor not to be waited on by another task in the same set (the hub keeps one task per "
+                  "descriptor; the later registration shadows the earlier - the code's behaviour).  "
                   "(3) caller_resumed_next needs caller priority >= 1: with priority < 1 the caller sits at the head of the deque but can "
                   "lose the draw - the code's behaviour; the oracle allows exactly that.  (4) no_crash assumes the program table is "
                   "well-formed.  Not proved (only checked by the oracle on the real code): fairness in the presence of sub-task calls "
@@ -926,7 +930,8 @@ class C06(Check):
                   "worth knowing: the hub is polled only when the ready deque is empty, so a task that always yields 0 starves all timed "
                   "waiters.")
     rule = ("case = (program table over the yield vocabulary, task list, timers, fd readiness times, socket scripts, start time, cycle budget"
-            "[, mode=threaded + schedule (sequential|random|PCT, seed)]); corpus = 13 hand-written scenarios + exhaustive scopes (every "
+            "[, mode=threaded + schedule (sequential|random|PCT, seed)]); corpus = 40 hand-written scenarios (incl. falsy results 0/False/b""/None, several deadlines and "
+            "descriptors due in one hub sweep, timer callbacks that cancel timers, operations whose execute() raises) + exhaustive scopes (every "
             "assignment of programs of <= L yields over an alphabet to N ordered tasks) + the threaded scenarios x 6 schedules + two threaded "
             "3-task scopes; non-trivial = the real run contains a timed resume, a sub-task step or a timer firing")
 
